@@ -385,7 +385,8 @@ fn answer(db: &anything::Db, q: &str) -> String {
     let ds: Vec<String> = d
         .iter()
         .map(|d| match d {
-            anything::Description::Constant(_, c) => format!("{:?} {}", c.tokens, c.description),
+            // the constant that answered, and what its source resolves to in this session
+            anything::Description::Constant(_, c) => format!("{:?} {} source {:?} -> {:?}", c.tokens, c.description, c.source, c.source.map(|id| db.get_source(id).map(|s| (s.id, s.description.to_string())))),
         })
         .collect();
     format!("{} <= {}", rs.join("; "), ds.join("; "))
